@@ -9,7 +9,7 @@ D = decimal.Decimal
 CASES = {'quick': 8000, 'thorough': 100000}
 SMALL_BLOCKS = 4      # runner: every 4th case keeps its stores in 2..10-token blocks
 GATES = {
-    'quick': {'empty_indent_by': 40, 'cases_in_small_blocks': 50, 'evaluations': 6000, 'created_meta_items': 1800, 'created_comments': 1200, 'raw_items_inserted': 600, 'from_value_meta': 400,
+    'quick': {'empty_indent_by': 40, 'cases_in_small_blocks': 50, 'evaluations': 6000, 'created_meta_items': 1800, 'created_comments': 1200, 'raw_items_inserted': 600, 'from_value_meta': 400, 'constructed_with_indent_by': 400,
               'entry_classes_seen': 13, 'layout:none': 300, 'layout:uniform': 300, 'layout:tabs': 100, 'layout:with-comments': 200,
               'layout:non-uniform': 100, 'meta_view_read_before_indent_by': 1500, 'reconfigured_between_edits': 1000,
               'meta_cleared_before_insert': 200, 'existing_comment_updates': 150, 'existing_comment_reindented_through_raw_text': 40},
@@ -235,6 +235,40 @@ def run_case(col, r, idx):
         if any(g != exp for g in got):
             col.violation(f'from_value-meta-indent:{"posting" if what == "Posting" else "entry"}', f'{what}.from_value(meta=..., indent_by={iby2!r}) '
                           f'created items with indents {got!r}, expected {exp!r}', {'printed': common.pr(m)})
+            return
+    # constructors with an explicit indent_by, every class that takes one, both constructors: the configured string must be the one
+    # the next insertion from a value uses (meta emptied first, so that no sibling decides)
+    if idx % 5 in (1, 3):
+        fn = 'from_value' if idx % 5 == 1 else 'from_children'
+        tree = {c.__name__: c for c in models.TREE_MODELS.values()}
+        names = [n for n in (builder.CLASSES_FROM_VALUE if fn == 'from_value' else builder.CLASSES_FROM_CHILDREN)
+                 if 'indent_by' in builder.optional_params(tree[n], fn)]
+        cn = r.choice(names)
+        for _ in range(30):
+            try:
+                m, args = (builder.build_from_value if fn == 'from_value' else builder.build_from_children)(tree[cn], r, None)
+            except LookupError:
+                return
+            if 'indent_by' in args:
+                break
+        else:
+            return
+        iby2 = args['indent_by']
+        col.ev()
+        col.count('constructed_with_indent_by')
+        col.count('ctor:' + fn + ':' + cn)
+        wit = {'class': cn, 'constructor': fn, 'indent_by': iby2, 'arguments': sorted(args), 'printed': common.pr(m)}
+        if m.indent_by != iby2:
+            col.violation(f'constructor-indent_by-lost:{fn}', f'{cn}.{fn}(indent_by={iby2!r}).indent_by == {m.indent_by!r}', wit)
+            return
+        own = m.indent if cn == 'Posting' else ''
+        m.meta.clear()
+        m.meta['zz'] = 'v'
+        col.nontrivial('ctor', cn, fn, iby2, own)
+        got = m.raw_meta[0].indent
+        if got != own + iby2:
+            col.violation(f'constructor-indent_by-unused:{fn}', f'{cn}.{fn}(indent_by={iby2!r}), then meta[\'zz\'] = \'v\' on the empty meta: '
+                          f'the new line is indented {got!r}, expected {own + iby2!r}', dict(wit, after=common.pr(m)))
             return
     if idx % 401 == 0:
         col.sample({'text': text, 'class': cname, 'layout': layout, 'indent_by': eff_by, 'result': common.pr(f)})
